@@ -5,7 +5,7 @@
 From Coq Require Import List ZArith QArith Bool.
 From PV Require Import lib.Sx lib.Str lib.Result model.SccTime model.SccStash model.SccPopon spec.SpecSccTime.
 From PV Require Import model.SccDecoder spec.Spec608 spec.SpecScc05.
-From PV Require Import proofs.SccTimeFacts proofs.SccStashFacts proofs.SccPoponFacts proofs.SccPoponStage1 proofs.SccPoponTimesFacts.
+From PV Require Import proofs.SccTimeFacts proofs.SccStashFacts proofs.SccPoponFacts proofs.SccPoponStage1 proofs.SccPoponTimesFacts proofs.SccPoponStage4 proofs.SccPoponStage3 proofs.SccPoponStage6 proofs.SccPoponStage5 proofs.SccPoponStage7 proofs.SccPoponStage8 proofs.SccPoponStage9.
 Import ListNotations.
 
 (* the string surgery of get_time (`_time[:-2] + str(int(_time[-2:]) + frames)`), the regex prefix match, the split
@@ -95,6 +95,53 @@ Theorem C06_popon_single_load_times_partial : forall d r off tcA tcB,
      ROk [mkPre t1 t2 [CText (row_text r) (row_pos r)] (Some (row_pos r))]).
 Proof. exact popon_single_load_times. Qed.
 Print Assumptions C06_popon_single_load_times_partial.
+
+(* WELL-FORMED STREAM -> DISPLAY EVENTS -> SPANS, beyond one load (whole reader model): for every sequence of lines, each
+   a load (ENM RCL PAC [TO] basic characters EOC, single or doubled) or an Erase-Displayed-Memory line, the captions'
+   (start, end) are exactly the spans of the statement computed from the instants of the EOC / EDM words *)
+Theorem C06_popon_stage4_spans_partial : forall d off segs evs,
+  forallb seg_ok segs = true -> res_map (seg_event d off) segs = Ok evs -> positive evs ->
+  spans_of (read off (map (seg_line d) segs)) = expected_with join_threshold evs.
+Proof. exact popon_stage4_spans. Qed.
+Print Assumptions C06_popon_stage4_spans_partial.
+
+(* ... and for whole programs whose loads have SEVERAL rows (a load whose rows are not adjacent yields several captions
+   with identical times): the span of the i-th load, repeated once per caption of that load, is the i-th span of the
+   statement; in particular the screens (runs of identical spans) are exactly the expected spans *)
+Theorem C06_popon_stage6_spans_partial : forall d off segs evs,
+  forallb pseg_ok segs = true -> res_map (pseg_event d off) segs = Ok evs -> positive evs ->
+  spans_of (read off (map (pseg_line d) segs))
+  = rmap (fun spans => flat_map bspans (combine (ploads_of segs) spans)) (expected_with join_threshold evs).
+Proof. exact popon_stage6_spans_mult. Qed.
+Print Assumptions C06_popon_stage6_spans_partial.
+Theorem C06_popon_stage6_screens_partial : forall d off segs evs,
+  forallb pseg_ok segs = true -> res_map (pseg_event d off) segs = Ok evs -> positive evs ->
+  rmap screens (spans_of (read off (map (pseg_line d) segs))) = rmap screens (expected_with join_threshold evs).
+Proof. exact popon_stage6_spans. Qed.
+Print Assumptions C06_popon_stage6_screens_partial.
+
+(* the same for whole programs whose rows carry basic / special / extended characters, backspaces and any preamble style *)
+Theorem C06_popon_stage7_spans_partial : forall d off segs evs,
+  forallb pseg_ok7 segs = true -> res_map (pseg_event d off) segs = Ok evs -> positive evs ->
+  spans_of (read off (map (pseg_line d) segs))
+  = rmap (fun spans => flat_map bspans (combine (ploads_of segs) spans)) (expected_with join_threshold evs).
+Proof. exact popon_stage7_spans_mult. Qed.
+Print Assumptions C06_popon_stage7_spans_partial.
+
+(* popon_times over the FULL item domain (all five item kinds incl. mid-row codes, every preamble style, any number of
+   rows per load, any number of loads, one load per line, Erase-Displayed-Memory lines anywhere; domain lc_ok8, see C05):
+   the captions of the i-th load all carry the i-th span of the statement computed from the EOC / EDM instants *)
+Theorem C06_popon_times : forall d off segs evs,
+  forallb pseg_ok8 segs = true -> res_map (pseg_event d off) segs = Ok evs -> positive evs ->
+  spans_of (read off (map (pseg_line d) segs))
+  = rmap (fun spans => flat_map bspans (combine (ploads_of segs) spans)) (expected_with join_threshold evs).
+Proof. exact popon_times. Qed.
+Print Assumptions C06_popon_times.
+Theorem C06_popon_times_screens : forall d off segs evs,
+  forallb pseg_ok8 segs = true -> res_map (pseg_event d off) segs = Ok evs -> positive evs ->
+  rmap screens (spans_of (read off (map (pseg_line d) segs))) = rmap screens (expected_with join_threshold evs).
+Proof. exact popon_times_screens. Qed.
+Print Assumptions C06_popon_times_screens.
 
 (* known defect #20 (offset beyond the timecodes): instants floored to 0 collide with the end == 0 sentinel *)
 Theorem C06_end_zero_sentinel_refuted :
